@@ -25,14 +25,12 @@ Ev == Trace[l]
 Load(ev) ==
   /\ stream' = ev.stream
   /\ fault' = ev.fault
-  /\ cuts' = FreeCuts
   /\ scan' = ScanAll(Readable(ev.stream, ev.fault))
 
 Init ==
   /\ Trace[1].e = "reset"
   /\ stream = Trace[1].stream
   /\ fault = Trace[1].fault
-  /\ cuts = FreeCuts
   /\ scan = ScanAll(Readable(Trace[1].stream, Trace[1].fault))
   /\ StartState
   /\ l = 2
